@@ -97,3 +97,37 @@ Definition alpha_mask_u8 (r g b a : Z) : Z := a.
 Definition invert_u8 (m : Z) : Z := 255 - m.
 Definition lum_table : list Z :=
   flat_map (fun a => map (fun c => lum_mask_u8 (Z.min c a) (Z.min c a) (Z.min c a) a) bytes) bytes.   (* index = a * 256 + c *)
+
+(* ------------------------------------------------------------------ extension round 4: nesting to any depth *)
+(* mask.rs::apply on one pixel: `mask="..."` on a <mask> is applied to the TARGET first (recursively), then the mask's own
+   coefficient; coef = coefficient of the rendered mask content, region = coverage of the mask rectangle *)
+Local Open Scope Q_scope.
+Inductive mtree := MMask (coef region : Q) (nested : option mtree).
+Fixpoint eval_mask (m : mtree) : Q :=
+  match m with MMask c r n => mask_factor c r (match n with Some k => eval_mask k | None => 1 end) end.
+Fixpoint wf_mask (m : mtree) : Prop :=
+  match m with MMask c r n => unit_q c /\ unit_q r /\ match n with Some k => wf_mask k | None => True end end.
+(* a group inside a group inside ...: every level multiplies by its clip factor, mask factor and opacity *)
+Definition apply_factors (p : Q) (fs : list Q) : Q := fold_left apply_factor fs p.
+
+(* the same in exact u8 / binary32, as tiny-skia computes it: the rendered mask content pixel (r, g, b, a) is scaled by the
+   coverage rc of the mask rectangle (apply_mask), converted to a coefficient (Mask::from_pixmap), and the target channel -
+   already treated by the nested mask - is scaled by it (apply_mask) *)
+Local Open Scope Z_scope.
+Inductive umask := UMask (luminance : bool) (r g b a rc : Z) (nested : option umask).
+Definition umask_coef (luminance : bool) (r g b a rc : Z) : Z :=
+  if luminance then lum_mask_u8 (scale_u8 r rc) (scale_u8 g rc) (scale_u8 b rc) (scale_u8 a rc)
+  else alpha_mask_u8 (scale_u8 r rc) (scale_u8 g rc) (scale_u8 b rc) (scale_u8 a rc).
+Fixpoint umask_apply (m : umask) (c : Z) : Z :=
+  match m with
+  | UMask lum r g b a rc n =>
+      scale_u8 (match n with Some k => umask_apply k c | None => c end) (umask_coef lum r g b a rc)
+  end.
+Fixpoint umask_wf (m : umask) : Prop :=
+  match m with
+  | UMask _ r g b a rc n => is_byte r /\ is_byte g /\ is_byte b /\ is_byte a /\ is_byte rc /\
+                            match n with Some k => umask_wf k | None => True end
+  end.
+(* some level of the chain has no coverage of its mask rectangle at this pixel *)
+Fixpoint umask_outside (m : umask) : Prop :=
+  match m with UMask _ _ _ _ _ rc n => rc = 0 \/ match n with Some k => umask_outside k | None => False end end.
